@@ -214,6 +214,9 @@ func (r *run) commitAbs(n *cnode, c commitRec) obj {
 			break
 		}
 	}
+	if other == nil {
+		other = n // a lone correct node: it is itself a correct node configured with the same committee and previous proof
+	}
 	if other != nil {
 		o["strict"] = other.worker.ValidateBlockConsensus(context.Background(), c.block, c.proof, prevBlock, prevProof, false) == nil
 		o["soft"] = other.worker.ValidateBlockConsensus(context.Background(), c.block, c.proof, prevBlock, prevProof, true) == nil
